@@ -112,6 +112,18 @@ Definition ex_oci : doc :=
 Example C09_example_wellformed : WellFormed OCI ex_oci /\ validate_oci ex_oci = EOk.
 Proof. split; [apply oci_iff|]; vm_compute; reflexivity. Qed.
 
+Definition ex_blob : doc :=
+  mk_doc "1.0"
+    [ mk_stmt "skip-some" (mk_sv "skip" [] "") [] [] [] false;
+      mk_stmt "global" (mk_sv "permissive" [("expiry", "enforce")] "always")
+        ["ca:acme-rockets"; "tsa:...a"] ["x509.subject:C=US;ST=WA;O=a\,b"; "spiffe://other"] [] true ].
+
+Example C09_example_blob_wellformed :
+  WellFormed Blob ex_blob /\ validate_blob ex_blob = EOk
+  /\ new_verifier (Some ex_oci) (Some ex_blob) = EOk
+  /\ new_verifier (Some ex_oci) (Some (mk_doc "1.0" [])) = ENoStatements.
+Proof. split; [apply blob_iff|]; repeat split; vm_compute; reflexivity. Qed.
+
 Definition ex_blob_global_skip : doc :=
   mk_doc "1.0" [ mk_stmt "a" (mk_sv "strict" [] "") ["ca:s"] ["*"] [] false;
                  mk_stmt "g" (mk_sv "skip" [] "") [] [] [] true ].
